@@ -1,6 +1,6 @@
 (* C15 -- property theorems only; each closed by `exact` and followed by Print Assumptions. *)
 Require Import SF.Prelude SF.Value SF.Dtype SF.Reduce Gen.Gen_c15_table.
-Require Import Proofs.ReduceFold Proofs.ReduceRefine Proofs.ReduceMain Proofs.ReduceSpec Proofs.ReduceArg.
+Require Import Proofs.ReduceFold Proofs.ReduceRefine Proofs.ReduceMain Proofs.ReduceSpec Proofs.ReduceArg Proofs.ReduceDtype.
 From Coq Require Import QArith.
 Local Open Scope Z_scope.
 
@@ -170,3 +170,11 @@ Theorem C15_table_ddof_bound : forall f skipna ddof,
   c15_ddof_bound f skipna = true /\ eff_ddof c15_ddof_bound f skipna ddof = ddof.
 Proof. exact table_ddof_bound. Qed.
 Print Assumptions C15_table_ddof_bound.
+
+(* The row-dtype rule inside the model (bool with anything else -> object, int + float -> float, narrow ints stay
+   int, object absorbs) agrees with util.resolve_dtype REGENERATED from /repo on every pair of the seven dtypes the
+   checks generate (bool, int64, int8, int16, uint8, float64, object). *)
+Theorem C15_row_kind_is_resolve_dtype :
+  forallb (fun d1 => forallb (kind_join_agrees d1) c15_dtypes) c15_dtypes = true.
+Proof. exact kind_join_is_resolve_dtype. Qed.
+Print Assumptions C15_row_kind_is_resolve_dtype.
